@@ -15,6 +15,15 @@
 (*        and an end record with y = <<>>.  Internal iteration IS repeated *)
 (*        next (8, 10) resp. next_back (9) - NormCalls maps it to that, so *)
 (*        an override of fold / rfold / for_each must agree with stepping. *)
+(*   [c |-> 20, st, k |-> m, m |-> name, got, want]   a provided method of *)
+(*        Iterator / DoubleEndedIterator / ExactSizeIterator (min, max,    *)
+(*        min_by_key, .., position, find, any, all, partition, collect,    *)
+(*        rfind, rposition, ..) called on the iterator itself (consuming): *)
+(*        `got` is what it returned, `want` what std's DEFAULT             *)
+(*        implementation returns on a stepping replica of the same         *)
+(*        iterator (a wrapper forwarding next / next_back / size_hint      *)
+(*        only).  The contract of a provided method IS its default         *)
+(*        implementation over next / next_back: got = want.                *)
 (*   st = "started": the call did not return (it panicked)                 *)
 (* S is the set of elements the underlying queue held.  The number of      *)
 (* elements still to be yielded is accounted forward: it starts at the     *)
@@ -62,7 +71,7 @@ Consumes(x, rem) ==
   IF x.st # "done" THEN 0
   ELSE CASE x.c \in {0, 1} -> IF rem > 0 THEN 1 ELSE 0
          [] x.c \in {4, 5} -> Min2(x.k + 1, rem)
-         [] x.c \in {6, 7} -> rem
+         [] x.c \in {6, 7, 20} -> rem
          [] OTHER          -> 0
 \* RemBefore(res, total)[i] = elements still owed before call i
 RECURSIVE RemSeq(_,_,_,_)
@@ -89,6 +98,9 @@ ProtoFails(res, S, adapt, k, panicked) ==
   \* None is final for the single-step calls (FusedIterator)
   \cup T(\A i \in 1..Len(res) : (res[i].c \in {0, 1} /\ res[i].st = "done" /\ res[i].y = <<>>)
                                  => \A j \in (i+1)..Len(res) : ~Yielded(res[j]), "iter_after_none")
+  \* a provided method returns what its default implementation returns on the stepping replica
+  \cup T(\A i \in 1..Len(res) : (res[i].c = 20 /\ res[i].st = "done" /\ "want" \in DOMAIN res[i]) => res[i].got = res[i].want,
+         "iter_provided")
   \* len, count and (where an exact size is declared) size_hint report exactly what is still owed
   \cup T(\A i \in 1..Len(res) : (res[i].c \in {2, 7} /\ res[i].st = "done") => res[i].len = rb[i], "iter_len")
   \cup T(\A i \in 1..Len(res) : (res[i].c = 3 /\ res[i].st = "done") =>
@@ -105,7 +117,7 @@ RECURSIVE PosWalk(_,_,_,_,_)
 PosWalk(res, ref, i, f, b) ==          \* f, b: 0-based cursors into ref: the remaining range is f..b-1
   IF i > Len(res) THEN {} ELSE
   LET x == res[i] IN
-  IF x.st # "done" \/ x.c \in {2, 3, 7} THEN PosWalk(res, ref, i+1, IF x.st = "done" /\ x.c = 7 THEN b ELSE f, b) ELSE
+  IF x.st # "done" \/ x.c \in {2, 3, 7, 20} THEN PosWalk(res, ref, i+1, IF x.st = "done" /\ x.c \in {7, 20} THEN b ELSE f, b) ELSE
   LET want == CASE x.c = 0 -> IF f < b THEN <<ref[f+1]>> ELSE <<>>
                 [] x.c = 1 -> IF f < b THEN <<ref[b]>> ELSE <<>>
                 [] x.c = 4 -> IF f + x.k < b THEN <<ref[f+x.k+1]>> ELSE <<>>
